@@ -18,6 +18,11 @@ Proof.
   intros _. apply Z.leb_le in E. exact E.
 Qed.
 
+(* a second stand-in whose signatures bind the hash: the signature is the key's first octet
+   followed by the hash itself (used to show that the hypotheses of C11_bitflip are satisfiable) *)
+Definition toy2_verify (spki h sg : list Z) : Z :=
+  if bytes_eqb sg (hd 0 spki :: h) then 1 else 0.
+
 Definition toy_load_priv (priv : list Z) : bool := true.
 Definition toy_size (priv : list Z) : Z := 72.
 Definition toy_sign (priv h : list Z) : list Z :=
